@@ -2,10 +2,12 @@ package main
 
 import (
 	"context"
+	"encoding/json"
 	"fmt"
 	"math/big"
 	"strings"
 
+	"github.com/iden3/go-iden3-core/v2/w3c"
 	"github.com/iden3/go-iden3-crypto/poseidon"
 	"github.com/iden3/go-merkletree-sql/v2"
 	"github.com/iden3/go-schema-processor/v2/merklize"
@@ -367,8 +369,186 @@ func genC08(out *Out, r *Rng, tier string, n int, shard int) {
 		for _, f := range faults {
 			emitSMT(out, r, f, nclaims)
 		}
+		emitSMTDocShapes(out, r, nclaims)
 	}
 	_ = poseidon.Hash
+}
+
+// ---------- the resolver's answer as a whole DID document ----------
+//
+// "Reported published by the DID resolver" is what the document's Iden3StateInfo2023 entry says about the state asked for. A
+// resolver's document may list other verification methods too (the key of an identity controlled by an Ethereum account, JWKs,
+// ...), before or after the state information; whatever members those carry, they say nothing about the state. The cases below
+// keep the bundle honest (a claim inserted in the issuer's tree, the proof generated from it, the state the hash of the roots)
+// and vary the document only: the verdict must be "accepted" exactly when the state information says published or the state
+// is the genesis state of the DID, and a document without state information never makes a non-genesis state acceptable.
+
+var otherVMTypes = []string{"EcdsaSecp256k1RecoveryMethod2020", "EcdsaSecp256k1VerificationKey2019", "JsonWebKey2020", "Ed25519VerificationKey2018",
+	"Ed25519VerificationKey2020", "X25519KeyAgreementKey2019", "Iden3ProfileInfo2024", "Multikey"}
+
+// smtDocShape: a DID document with the state information (or none) at a position among other verification methods
+type smtDocShape struct {
+	info      string   // what the Iden3StateInfo2023 entry says: published | unpublished | nil | absent
+	pos       int      // its index in the list
+	types     []string // the types of all entries, in order
+	published []any    // their "published" members (nil: none)
+	viaJSON   bool     // the document reaches the verifier decoded from JSON, as from an HTTP resolver
+	doc       verifiable.DIDDocument
+}
+
+func randHex(r *Rng, n int) string {
+	const d = "0123456789abcdef"
+	b := make([]byte, n)
+	for i := range b {
+		b[i] = d[r.Intn(16)]
+	}
+	return string(b)
+}
+
+func randSMTDocShape(r *Rng, did, stateHex, info string) smtDocShape {
+	sh := smtDocShape{info: info, pos: -1}
+	nOther := r.Intn(5)
+	if info == "absent" || r.Chance(60) {
+		nOther = 1 + r.Intn(4)
+	}
+	var vms []verifiable.CommonVerificationMethod
+	for i := 0; i < nOther; i++ {
+		vm := verifiable.CommonVerificationMethod{ID: fmt.Sprintf("%s#key-%d", did, i+1), Type: r.Pick(otherVMTypes), Controller: did}
+		switch r.Intn(4) {
+		case 0:
+			vm.BlockchainAccountID = "eip155:80001:0x" + randHex(r, 40)
+		case 1:
+			vm.PublicKeyHex = randHex(r, 66)
+		case 2:
+			vm.PublicKeyJwk = map[string]interface{}{"kty": "EC", "crv": "secp256k1", "x": randHex(r, 43), "y": randHex(r, 43)}
+		default:
+			vm.PublicKeyBase58 = randHex(r, 44)
+		}
+		// entries that are no state information may carry members of the same names: they report nothing about the state
+		switch r.Intn(5) {
+		case 0, 1:
+			t := true
+			vm.IdentityState.Published = &t
+		case 2:
+			f := false
+			vm.IdentityState.Published = &f
+		}
+		vms = append(vms, vm)
+	}
+	if info != "absent" {
+		si := verifiable.CommonVerificationMethod{ID: did + "#stateInfo", Type: "Iden3StateInfo2023", Controller: did,
+			StateContractAddress: "80001:0x" + randHex(r, 40)}
+		switch info {
+		case "published":
+			t := true
+			si.IdentityState.Published = &t
+			if r.Bool() {
+				si.IdentityState.Info = &verifiable.StateInfo{ID: did, State: stateHex, ReplacedByState: strings.Repeat("0", 64),
+					CreatedAtTimestamp: "1703174663", ReplacedAtTimestamp: "0", CreatedAtBlock: "43840767", ReplacedAtBlock: "0"}
+			}
+		case "unpublished":
+			f := false
+			si.IdentityState.Published = &f
+		}
+		sh.pos = r.Intn(len(vms) + 1)
+		vms = append(vms[:sh.pos], append([]verifiable.CommonVerificationMethod{si}, vms[sh.pos:]...)...)
+	}
+	for _, vm := range vms {
+		sh.types = append(sh.types, vm.Type)
+		if vm.IdentityState.Published == nil {
+			sh.published = append(sh.published, nil)
+		} else {
+			sh.published = append(sh.published, *vm.IdentityState.Published)
+		}
+	}
+	sh.doc = verifiable.DIDDocument{Context: []interface{}{"https://www.w3.org/ns/did/v1", "https://schema.iden3.io/core/jsonld/auth.jsonld"},
+		ID: did, VerificationMethod: vms}
+	sh.viaJSON = r.Bool()
+	return sh
+}
+
+func (sh smtDocShape) String() string {
+	return fmt.Sprintf("verificationMethod types %v with published members %v (state information: %s, at index %d; via JSON: %v)",
+		sh.types, sh.published, sh.info, sh.pos, sh.viaJSON)
+}
+
+func emitSMTDocShapes(out *Out, r *Rng, nclaims int) {
+	s := newVerifySetup(r, false, 0)
+	genesis := r.Chance(30)
+	var p *verifiable.Iden3SparseMerkleTreeProof
+	if genesis {
+		// an identity whose genesis claims tree already holds the claim: the state of the proof is the genesis state of its DID
+		o := NewIssuerWith(r, 0, s.claim)
+		p = o.ProofSMT(s.claim)
+		s.is = o
+	} else {
+		for i := 0; i < nclaims%16; i++ {
+			_ = s.is.claims.Add(context.Background(), r.BigBelow(poseidonQ()), r.BigBelow(poseidonQ()))
+		}
+		var err error
+		if p, err = s.is.IssueSMT(s.claim); err != nil {
+			return
+		}
+		s.later = true
+	}
+	s.vc.Proof = verifiable.CredentialProofs{p}
+	st := p.IssuerData.State
+	stHash, err := merkletree.NewHashFromHex(*st.Value)
+	if err != nil {
+		panic(err)
+	}
+	gen := genesisOracle(p.IssuerData.ID, st.Value)
+	isGen, _ := gen.(J)["ok"].(bool)
+	infos := []string{"published", "published", "unpublished", "nil", "published", "unpublished"}
+	if !isGen {
+		infos = append(infos, "absent")
+	}
+	for _, info := range infos {
+		sh := randSMTDocShape(r, p.IssuerData.ID, stHash.Hex(), info)
+		c := Case{Op: "none", Tags: []string{"did-document", "info:" + info, fmt.Sprintf("genesis:%v", isGen), fmt.Sprintf("vms:%d", len(sh.types))}, NT: true}
+		c.In = J{"didDocument": J{"info": info, "pos": sh.pos, "types": sh.types, "published": sh.published, "viaJSON": sh.viaJSON},
+			"genesis": gen, "issuer": J{"state": treeStateJ(st.Value, st.ClaimsTreeRoot, st.RevocationTreeRoot, st.RootOfRoots)}, "mtp": proofJSON(p.MTP)}
+		setCurrent(out, &c)
+		var asked []string
+		res := didResolver{f: func(did *w3c.DID) (verifiable.DIDDocument, error) {
+			asked = append(asked, did.String())
+			if !sh.viaJSON {
+				// the verifier gets its own copy of the list
+				d := sh.doc
+				d.VerificationMethod = append([]verifiable.CommonVerificationMethod{}, sh.doc.VerificationMethod...)
+				return d, nil
+			}
+			b, err := json.Marshal(sh.doc)
+			if err != nil {
+				panic(err)
+			}
+			var d verifiable.DIDDocument
+			if err := json.Unmarshal(b, &d); err != nil {
+				panic(err)
+			}
+			return d, nil
+		}}
+		verr := runVerify(s.vc, verifiable.Iden3SparseMerkleTreeProofType, res, nil, s.c.loader())
+		c.Impl = classify(verr)
+		want := info != "absent" && (info == "published" || isGen)
+		var why []string
+		switch {
+		case want && verr != nil:
+			reason := "the resolver's state information reports the state published"
+			if info != "published" {
+				reason = "the state is the genesis state of the issuer's DID"
+			}
+			why = append(why, fmt.Sprintf("a claim actually inserted in the issuer's claims tree, with the proof generated from that tree, was rejected although %s: %v; DID document: %s", reason, verr, sh))
+		case !want && verr == nil:
+			why = append(why, fmt.Sprintf("verification succeeded although the state is not the genesis state and the resolver's state information does not report it published; DID document: %s", sh))
+		}
+		if errClass(verr) == "panic" || errClass(verr) == "hang" {
+			why = append(why, "verifier "+errClass(verr)+": "+verr.Error())
+		}
+		c.Prop = propOf(why)
+		setCurrent(nil, nil)
+		out.Emit(c)
+	}
 }
 
 func init() { gens["C08"] = genC08 }
